@@ -11,7 +11,7 @@ CHECK = {
  'rule': 'monitor loop: the real sensorMonitor.Run with slow reads (0..800 virtual ms at a 200 ms polling rate) under a controlled scheduler that parks goroutines at every sensor lock operation; all orders of concurrently runnable goroutines up to 2 (quick) / 4 (thorough) deviations; after k completed polls of a constant reading the remaining distance must be <= (1-1/n)^k of the initial one. for each sensor kind x tempRollingWindowSize {1,2,10,50} (cmd {1,10}): every sequence of one seeding read + 3 (quick) / 4 (thorough) polls (cmd: 3 / 4) over the alphabet '
          '{-40000, 0, 35000, 35001, 100000, 1e12} U faults {REAL file content parsed by fan2go itself: missing, empty, whitespace-only, non-numeric, digits followed by text, decimal number; cmd: exit 1, non-numeric, empty output, nan, inf, -inf}. Oracle after every poll: average within the hull of the '
          'initial value and all successful finite readings (relative eps 1e-12), |a\'-c| <= (1-1/n)|a-c| for a reading c, and after a failed or non-finite poll the average is bit-identical and finite. '
-         'distinct_nontrivial = passing sequences that mix successful reads and faults. The cmd alphabet also has the finite readings 1.5e308 and -1.5e308 (a command prints a float).',
+         'distinct_nontrivial = passing sequences that mix successful reads and faults. The cmd alphabet also has the finite readings 1.5e308 and -1.5e308 (a command prints a float). Option run (internal/configuration TestVX_C08option): every stated tempRollingWindowSize / rpmRollingWindowSize in {1,2,3,9,10,11,50,1000, not stated}, from the file or the environment, next to other polling options, loaded through the real start-up path; the stated value (default 10) must reach CurrentConfig.',
  'assumptions': COMMON_ASSUME + ['cmd sensor faults are produced by a root-owned /bin/sh script whose body is switched per poll'],
  'level_text': 'all placements of read faults within all reading sequences up to the depth bound, on the real monitor code',
  'level_note': 'bounded depth and value alphabet; the 2 s command timeout fault is covered by C19, not here',
